@@ -2,9 +2,9 @@
 # Re-express every seeded patch against /repo HEAD (after fix: commits) so that a plain `git apply` / `patch -p1` works on a copy of the current tree.
 WT=/dev/shm/seedrebase; rm -rf $WT; git -C /repo worktree add --detach $WT HEAD >/dev/null 2>&1 || exit 1
 trap 'git -C /repo worktree remove --force $WT >/dev/null 2>&1; rm -rf $WT' EXIT
-for d in /verif/seeded/*/; do
+for d in /verif/seeded/*/ /verif/twins/*/; do
   n=$(basename $d); [ -f $d/patch.diff ] || continue
-  git -C $WT checkout -q -- . ; git -C $WT clean -fdq
+  git -C $WT reset -q --hard; git -C $WT clean -fdq
   if git -C $WT apply --check $d/patch.diff 2>/dev/null; then continue; fi
   if git -C $WT apply --3way $d/patch.diff >/dev/null 2>&1 && [ -z "$(git -C $WT diff --name-only --diff-filter=U)" ]; then
     git -C $WT reset -q; git -C $WT diff > $d/patch.diff.new
